@@ -777,7 +777,8 @@ Section Obs.
      catalogue per host, the connected host first).  By construction of the generator the last two runs have
      no injected fault (c_clean = true): the first must converge, the second must be a no-op. *)
   Record case := { c_id : Z; c_cfg : cfg; c_nhosts : nat; c_runs : list orun; c_clean : bool;
-                   c_hosts : list cat; c_ver_tbl : bool; c_vd_tbl : bool; c_vers : list (N * N) }.
+                   c_hosts : list cat; c_ver_tbl : bool; c_vd_tbl : bool; c_vers : list (N * N);
+                   c_conn : list nat   (* round 7: the host each start connects to (missing entries: host 0) *) }.
 
   (* the scripts of a configuration as cluster statements: ON CLUSTER only when a cluster name is set
      ({{.OnCluster}} expands to a blank otherwise) *)
@@ -787,14 +788,34 @@ Section Obs.
     update (ccat cat) (cstmt stmt) (cl_exec cat stmt (exec_ch (cloud c))) (cl_pexec cat stmt (exec_ch (cloud c))) (cl_scripts c) c.
   Definition hosts0 (n : nat) : ccat cat := repeat cat0 n.
 
-  Fixpoint model_runs (c : cfg) (rs : list orun) (d : db (ccat cat)) : db (ccat cat) * bool :=
+  (* round 7: a start may reach the cluster through any host.  The cluster model keeps the connected host at
+     the head of the host list, so a start through host j is the same start on the list with hosts 0 and j
+     exchanged (swap_hosts is its own inverse; the skip mask of a partial application counts hosts in that
+     order, as the fake does).  The recorded versions stay ONE function of the stream: with a cluster name the
+     code reads them through ver_dist, i.e. over the rows of every shard (proofs/MigrateShardProofs.v:
+     dist_read_is_global); a start that read the local table instead would not see them (local_read_misses). *)
+  Definition swap_hosts {A} (j : nat) (hs : list A) : list A :=
+    match hs, j with
+    | h0 :: tl, S j' =>
+      match nth_error tl j' with
+      | Some hj => hj :: (firstn j' tl ++ h0 :: skipn (S j') tl)
+      | None => hs
+      end
+    | _, _ => hs
+    end.
+  Definition start_at (c : cfg) (j : nat) (os : list outcome) (d : db (ccat cat)) :=
+    let m := ch_update c os (set_cat (ccat cat) d (swap_hosts j (d_cat d))) in
+    (m, set_cat (ccat cat) (r_db m) (swap_hosts j (d_cat (r_db m)))).
+
+  Fixpoint model_runs_at (c : cfg) (rs : list orun) (conn : list nat) (d : db (ccat cat)) : db (ccat cat) * bool :=
     match rs with
     | [] => (d, true)
     | r :: rest =>
-      let m := ch_update c (or_os r) d in
+      let '(m, d1) := start_at c (hd 0 conn) (or_os r) d in
       let same := Bool.eqb (r_ok m) (or_ok r) && list_eqb oevent_eqb (map abs_event (r_log m)) (or_log r) in
-      let '(d', ok) := model_runs c rest (r_db m) in (d', same && ok)
+      let '(d', ok) := model_runs_at c rest (tl conn) d1 in (d', same && ok)
     end.
+  Definition model_runs (c : cfg) (rs : list orun) (d : db (ccat cat)) : db (ccat cat) * bool := model_runs_at c rs [] d.
 
   Definition vers_list {A} (d : db A) : list (N * N) :=
     map (fun k => (stream_k k, N.of_nat (d_vers d k))) (filter (fun k => negb (d_vers d k =? 0)) all_streams).
@@ -802,7 +823,7 @@ Section Obs.
     list_eqb (fun x y => N.eqb (fst x) (fst y) && N.eqb (snd x) (snd y)) a b.
 
   Definition model_mismatch (c : case) : bool :=
-    let '(d, same) := model_runs (c_cfg c) (c_runs c) (db0 (ccat cat) (hosts0 (c_nhosts c))) in
+    let '(d, same) := model_runs_at (c_cfg c) (c_runs c) (c_conn c) (db0 (ccat cat) (hosts0 (c_nhosts c))) in
     negb (same && list_eqb cat_eqb (d_cat d) (c_hosts c) && Bool.eqb (d_ver_tbl d) (c_ver_tbl c)
           && Bool.eqb (d_vd_tbl d) (c_vd_tbl c) && vers_eqb (vers_list d) (c_vers c)).
 
@@ -931,7 +952,7 @@ Section Obs.
   Definition boot_as_case (c : bcase) : case :=
     {| c_id := bc_id c; c_cfg := b_cfg (bc_cfg c); c_nhosts := bc_nhosts c;
        c_runs := map (fun r => {| or_os := []; or_ok := bo_ok r; or_items := bo_items r |}) (bc_runs c);
-       c_clean := negb (b_ttl0 (bc_cfg c)); c_hosts := bc_hosts c; c_ver_tbl := bc_ver_tbl c; c_vd_tbl := bc_vd_tbl c; c_vers := bc_vers c |}.
+       c_clean := negb (b_ttl0 (bc_cfg c)); c_hosts := bc_hosts c; c_ver_tbl := bc_ver_tbl c; c_vd_tbl := bc_vd_tbl c; c_vers := bc_vers c; c_conn := [] |}.
   Definition boot_mismatches (cs : list bcase) : list Z := map bc_id (filter boot_mismatch cs).
   Definition boot_violations (cs : list bcase) : list (Z * N) :=
     map (fun c => (bc_id c, spec_code (boot_as_case c))) (filter (fun c => spec_violation (boot_as_case c)) cs).
